@@ -36,6 +36,7 @@ func (im vhImporter) Import(path string) (*types.Package, error) {
 var vhDepSources = []struct{ path, file, src string }{
 	{"context", "context.go", "package context\n\ntype Context interface{ Err() error }\n"},
 	{"time", "time.go", "package time\n\ntype Time struct{ wall uint64 }\n"},
+	{"example.com/other", "other.go", "package other\n\n// Ext lives in another package\ntype Ext struct {\n\tA string `json:\"a\"`\n\tK Kind\n}\n\ntype Kind string\n\nconst (\n\tKindA Kind = \"a\"\n\tKindB Kind = \"b\"\n)\n"},
 	{"github.com/gopher-fleece/runtime", "runtime.go", "package runtime\n\ntype GleeceController struct{}\n\ntype Rfc7807Error struct {\n\tType string\n\tStatus int\n}\n"},
 }
 
